@@ -215,6 +215,12 @@ def _sum_range(rng: ast.Call) -> ast.AST:
     if not core.match_template(step, ast.Constant(value=1)):
         return rng
 
+    try:
+        if core.literal_value(end) < core.literal_value(start):
+            return ast.Constant(value=0, kind=None)  # An empty range, the closed form is not 0
+    except (ValueError, TypeError):
+        pass
+
     if core.match_template(start, ast.Constant(value=0)):
         return _sum_int_squares_to(end)
 
@@ -242,6 +248,8 @@ def _integrate_over(expr: ast.AST, generators: Sequence[ast.comprehension]) -> a
             step = _parse_sympy_expr(core.unparse(step).strip())
 
             if step == 1:
+                if lower.is_Integer and upper.is_Integer and upper < lower:
+                    upper = lower  # An empty range, not a negative number of elements
                 upper -= 1
             elif lower.is_Integer and upper.is_Integer and step.is_Integer and step != 0:
                 # range(lower, upper, step) has ceil((upper - lower) / step) elements, if any
